@@ -151,7 +151,11 @@ def run(c: Check):
                                      other_history=seen[key][1], other_answer=seen[key][0], got=a))
                 seen.setdefault(key, (a, hist))
         # oracle 3: pinned identifiers
-        if "pinned" in x and r0["answers"] != x["pinned"]:
+        if "pinned" in x and r0["answers"] != x["pinned"] and r0.get("build_errors"):
+            # the tree refuses an action of the pinned description (since /repo 0cc66af a task that was not submitted
+            # is refused as a value): the graph the identifier was pinned for can no longer be built
+            c.count("pinned-skipped:build-refuses-an-action")
+        elif "pinned" in x and r0["answers"] != x["pinned"]:
             c.violation("C01:pinned-differs", "identifier differs from the one pinned for the same configuration",
                         dict(desc=x["desc"], histories=x["histories"], pinned=x["pinned"], got=r0["answers"]))
         if not identgen.in_model(r0["export"]):
